@@ -62,7 +62,7 @@ func runC14(c *Ctx) {
 	}
 	c.Explain = "E1 (must-pass-through on the SSA CFG) on conf.FindPathConf: exact_first (map hit pathConfs[name] returned with nil groups under ok; every other return passes !ok), valid_for_regexp (non-hit success ⇒ IsValidPathName(name)==nil), rejected_otherwise (error returns carry no configuration; the final error follows loop exhaustion); " +
 		"collect_loop (the range over the map: body contains only the Regexp != nil test and append of the ranged value; no return/call/break); sorted_before_match (sort.Slice on the collected slice precedes every FindStringSubmatch; no store to the slice after the range loop); " +
-		"comparator (all entry→exit paths of the closure enumerated: i∈{all,all_others} ⇒ false, else j∈{…} ⇒ true, else Name[i] < Name[j]); first_match (index loop from 0 step +1 over the sorted slice; success return is the current element with its own FindStringSubmatch(name) result, guarded by != nil); " +
+		"comparator (the comparator - closure or named function, with the functions it calls - is executed on abstract values for each of the 15 situations it can distinguish (Name class of i and j x their order): i∈{all,all_others} ⇒ false, else j∈{…} ⇒ true, else Name[i] < Name[j]; anything not exactly evaluable fails); first_match (index loop from 0 step +1 over the sorted slice; success return is the current element with its own FindStringSubmatch(name) result, guarded by != nil); " +
 		"who_matches (E2: regexp matches on conf.Path.Regexp in the module are a closed table); no_stale_resolution (E5, per call of conf.FindPathConf in the module: forward data flow of results #0/#1 and of what is read from them, through locals, fresh objects, new helpers, returns to static callers and closure bindings; a Store / MapUpdate / sync.Map.Store into non-local memory is allowed only for core.path.conf/confName/matches (re-resolved by doReloadConf, C15) or for a container that every function storing the struct field the first argument was loaded from empties - clear() or reassignment - before each of its returns). NOT decided: regexp semantics, sort.Slice, uniqueness of names (map keys)."
 	c.Assume = []string{
 		"sort.Slice orders the slice according to the comparator",
@@ -156,7 +156,9 @@ func runC14(c *Ctx) {
 			loop = l
 		}
 	}
-	var slice *ssa.Alloc
+	// the collected slice: a local variable cell (when a closure captures it) or,
+	// when the variable lives in registers, the accumulator phi of the collecting loop
+	slice := &c14coll{}
 	if loop == nil {
 		c.Check("C14.collect_loop", fnName(fn)+": exactly one range over pathConfs", false, p.Pos(fn.Pos()), "no range over the map")
 	} else {
@@ -203,8 +205,10 @@ func runC14(c *Ctx) {
 						// destination: the local slice variable
 						if u, ok := x.Call.Args[0].(*ssa.UnOp); ok {
 							if a, ok := u.X.(*ssa.Alloc); ok {
-								slice = a
+								slice.cell = a
 							}
+						} else if ph, ok := x.Call.Args[0].(*ssa.Phi); ok && ph.Block() == loop.Header && c14AccumulatorPhi(ph, x) {
+							slice.val = ph
 						}
 						continue
 					}
@@ -230,17 +234,13 @@ func runC14(c *Ctx) {
 	}
 
 	// ---- sorted before match
-	var sortCall *ssa.Call
-	for _, ci := range callsIn(fn, "sort.Slice", "sort.SliceStable", "slices.SortFunc", "slices.SortStableFunc") {
-		sortCall, _ = ci.(*ssa.Call)
-	}
+	sortCall := c14SortCall(fn)
 	matchCalls := callsIn(fn, "(*regexp.Regexp).FindStringSubmatch")
-	if sortCall == nil || slice == nil {
+	if sortCall == nil || !slice.found() {
 		c.Check("C14.sorted_before_match", fnName(fn)+": the collected slice is sorted before matching", false, p.Pos(fn.Pos()), "no sort call on the collected slice")
 	} else {
 		arg := stripConv(sortCall.Call.Args[0])
-		u, ok := arg.(*ssa.UnOp)
-		c.Check("C14.sorted_before_match", fnName(fn)+": sort.Slice sorts the collected slice", ok && u.X == slice, p.Pos(sortCall.Pos()), desc(arg))
+		c.Check("C14.sorted_before_match", fnName(fn)+": sort.Slice sorts the collected slice", slice.is(arg), p.Pos(sortCall.Pos()), desc(arg))
 		if len(matchCalls) == 0 {
 			c.Check("C14.sorted_before_match", fnName(fn)+": FindStringSubmatch preceded by the sort", false, p.Pos(fn.Pos()), "no match call")
 		} else {
@@ -248,18 +248,25 @@ func runC14(c *Ctx) {
 				func(i ssa.Instruction) bool { return i == ssa.Instruction(sortCall) })
 		}
 		// the slice variable is written only by the collecting append
+		// (a register value cannot be reassigned: what is sorted and what is matched are
+		// the same value by identity)
 		nOut := 0
-		for _, r := range *slice.Referrers() {
-			if st, ok := r.(*ssa.Store); ok && st.Addr == slice {
-				if loop == nil || !loop.Body[st.Block()] {
-					nOut++
+		if slice.cell != nil {
+			for _, r := range *slice.cell.Referrers() {
+				if st, ok := r.(*ssa.Store); ok && st.Addr == ssa.Value(slice.cell) {
+					if loop == nil || !loop.Body[st.Block()] {
+						nOut++
+					}
 				}
 			}
 		}
-		c.Check("C14.sorted_before_match", fnName(fn)+": the collected slice is not reassigned outside the collecting loop", nOut == 0, p.Pos(slice.Pos()), fmt.Sprintf("%d stores outside", nOut))
+		c.Check("C14.sorted_before_match", fnName(fn)+": the collected slice is not reassigned outside the collecting loop", nOut == 0, p.Pos(slice.pos()), fmt.Sprintf("%d stores outside", nOut))
 		// the comparator is the closure checked below
+		// (a closure over the collected slice, or a named function of two elements)
 		if mc, ok := stripConv(sortCall.Call.Args[1]).(*ssa.MakeClosure); ok {
-			c14Comparator(c, p, mc.Fn.(*ssa.Function), slice, mc)
+			c14Comparator(c, p, mc.Fn.(*ssa.Function), slice.cell, mc.Bindings)
+		} else if f, ok := stripConv(sortCall.Call.Args[1]).(*ssa.Function); ok {
+			c14Comparator(c, p, f, slice.cell, nil)
 		} else {
 			c.Check("C14.comparator", fnName(fn)+": comparator is a closure over the collected slice", false, p.Pos(sortCall.Pos()), desc(sortCall.Call.Args[1]))
 		}
@@ -296,113 +303,22 @@ func runC14(c *Ctx) {
 	c.Floor("C14.who_matches", n, 2)
 }
 
-// nameOfElem: v is S[param k].Name for the slice variable captured by the
-// comparator; returns k.
-func c14NameOfElem(v ssa.Value, fv ssa.Value) (int, bool) {
-	sn, f, base, ok := fieldLoad(v)
-	if !ok || sn != "conf.Path" || f != "Name" {
-		return 0, false
-	}
-	ld, ok := base.(*ssa.UnOp) // load of &S[k]
-	if !ok || ld.Op != token.MUL {
-		return 0, false
-	}
-	ia, ok := ld.X.(*ssa.IndexAddr)
-	if !ok {
-		return 0, false
-	}
-	sl, ok := ia.X.(*ssa.UnOp)
-	if !ok || sl.X != fv {
-		return 0, false
-	}
-	par, ok := ia.Index.(*ssa.Parameter)
-	if !ok {
-		return 0, false
-	}
-	return paramIndex(par), true
-}
-
-func c14Comparator(c *Ctx, p *Prog, cl *ssa.Function, slice *ssa.Alloc, mc *ssa.MakeClosure) {
+// c14Comparator: the function handed to the sort call, decided by evaluating it on
+// every situation it can distinguish (prop_gen_c14.go).
+func c14Comparator(c *Ctx, p *Prog, cl *ssa.Function, slice *ssa.Alloc, bindings []ssa.Value) {
 	c.Analysed(fnName(cl))
 	key := fnName(cl) + ": "
-	if len(cl.FreeVars) != 1 || len(mc.Bindings) != 1 || mc.Bindings[0] != ssa.Value(slice) {
-		c.Check("C14.comparator", key+"captures exactly the collected slice", false, p.Pos(cl.Pos()), "")
-		return
+	nCases, bad := c14ComparatorSemantics(cl, bindings, slice)
+	c.Count("comparator_cases", nCases)
+	if len(bad) > 4 {
+		bad = append(bad[:4], fmt.Sprintf("... and %d more", len(bad)-4))
 	}
-	fv := ssa.Value(cl.FreeVars[0])
-	atomOf := func(cond ssa.Value) string {
-		bo, ok := cond.(*ssa.BinOp)
-		if !ok || bo.Op != token.EQL {
-			return ""
-		}
-		for _, pr := range [][2]ssa.Value{{bo.X, bo.Y}, {bo.Y, bo.X}} {
-			k, ok := c14NameOfElem(pr[0], fv)
-			s, ok2 := constStringB(pr[1])
-			if ok && ok2 && (s == "all" || s == "all_others") && (k == 0 || k == 1) {
-				return fmt.Sprintf("%d:%s", k, s)
-			}
-		}
-		return ""
-	}
-	nPaths := 0
-	var bad []string
-	complete := enumAcyclicPaths(cl, 256, func(steps []pathStep, last *ssa.BasicBlock) {
-		nPaths++
-		know := map[string]bool{}
-		has := map[string]bool{}
-		for _, s := range steps {
-			a := atomOf(s.Cond)
-			if a == "" {
-				bad = append(bad, "branch on something else than Name == all/all_others: "+litOf(s.Cond, true).Atom)
-				return
-			}
-			know[a], has[a] = s.Outcome, true
-		}
-		ret, ok := last.Instrs[len(last.Instrs)-1].(*ssa.Return)
-		if !ok {
-			bad = append(bad, "path does not end in a return")
-			return
-		}
-		rv := retVal(ret, 0)
-		cb, isConst := constBool(rv)
-		iLast := know["0:all"] || know["0:all_others"]
-		jLast := know["1:all"] || know["1:all_others"]
-		iKnownNot := has["0:all"] && has["0:all_others"] && !iLast
-		jKnownNot := has["1:all"] && has["1:all_others"] && !jLast
-		switch {
-		case iLast:
-			if !isConst || cb {
-				bad = append(bad, "i is all/all_others but the comparator does not return false: "+desc(rv))
-			}
-		case iKnownNot && jLast:
-			if !isConst || !cb {
-				bad = append(bad, "j is all/all_others (i is not) but the comparator does not return true: "+desc(rv))
-			}
-		case iKnownNot && jKnownNot:
-			bo, ok := rv.(*ssa.BinOp)
-			good := false
-			if ok {
-				ki, ok1 := c14NameOfElem(bo.X, fv)
-				kj, ok2 := c14NameOfElem(bo.Y, fv)
-				good = ok1 && ok2 && ((bo.Op == token.LSS && ki == 0 && kj == 1) || (bo.Op == token.GTR && ki == 1 && kj == 0))
-			}
-			if !good {
-				bad = append(bad, "ordinary names are not compared as Name[i] < Name[j]: "+desc(rv))
-			}
-		default:
-			bad = append(bad, "return reached without deciding whether i and j are all/all_others: "+desc(rv))
-		}
-	})
-	if !complete {
-		c.Undecided("C14.comparator: path cap exceeded in " + fnName(cl))
-	}
-	c.Count("comparator_paths", nPaths)
-	c.Check("C14.comparator", key+"all/all_others last, otherwise ascending by Name, on every path", len(bad) == 0 && nPaths >= 5, p.Pos(cl.Pos()), fmt.Sprintf("%d paths; %s", nPaths, strings.Join(bad, "; ")))
+	c.Check("C14.comparator", key+"all/all_others last, otherwise ascending by Name, on every path", len(bad) == 0 && nCases == 15, p.Pos(cl.Pos()), fmt.Sprintf("%d situations evaluated; %s", nCases, strings.Join(bad, "; ")))
 }
 
-func c14FirstMatch(c *Ctx, p *Prog, fn *ssa.Function, slice *ssa.Alloc, matchCalls []ssa.Instruction) {
+func c14FirstMatch(c *Ctx, p *Prog, fn *ssa.Function, slice *c14coll, matchCalls []ssa.Instruction) {
 	key := fnName(fn) + ": "
-	if len(matchCalls) != 1 || slice == nil {
+	if len(matchCalls) != 1 || !slice.found() {
 		c.Check("C14.first_match", key+"exactly one FindStringSubmatch over the sorted slice", false, p.Pos(fn.Pos()), fmt.Sprintf("%d match calls", len(matchCalls)))
 		return
 	}
@@ -413,7 +329,7 @@ func c14FirstMatch(c *Ctx, p *Prog, fn *ssa.Function, slice *ssa.Alloc, matchCal
 	if sn, f, base, ok := fieldLoad(call.Call.Args[0]); ok && sn == "conf.Path" && f == "Regexp" {
 		if ld, ok := base.(*ssa.UnOp); ok {
 			if ia, ok := ld.X.(*ssa.IndexAddr); ok {
-				if sl, ok := ia.X.(*ssa.UnOp); ok && sl.X == ssa.Value(slice) {
+				if slice.is(ia.X) {
 					elem, okRecv = ia, true
 				}
 			}
